@@ -269,8 +269,13 @@ func (x *Exec) modularCall(st *State, fr *Frame, v *ssa.Call, callee *ssa.Functi
 		}
 	}
 	// effects
-	if fc.HasMod {
-		for _, m := range fc.Modifies {
+	mods, hasMod := fc.Modifies, fc.HasMod
+	if fc.HasTrustedMod {
+		mods, hasMod = fc.TrustedMod, true
+		x.stdlibUsed["trusted frame of "+fc.Key+": modifies "+strings.Join(append([]string{"(only fresh objects)"}, fc.TrustedMod...), ", ")]++
+	}
+	if hasMod {
+		for _, m := range mods {
 			it, err := preEnv.evalModItem(m)
 			if err != nil {
 				x.errors = append(x.errors, fmt.Sprintf("%s: modifies %q (at call in %s): %v", fc.Where, m, x.topKey, err))
@@ -310,13 +315,16 @@ func (x *Exec) modularCall(st *State, fr *Frame, v *ssa.Call, callee *ssa.Functi
 			x.errors = append(x.errors, fmt.Sprintf("%s: ghost (at call): %v", g.Where, err))
 		}
 	}
-	for _, e := range fc.Ensures {
+	for _, e := range append(append([]Clause{}, fc.Ensures...), fc.Trusted...) {
 		t, err := postEnv.evalBool(e.Expr)
 		if err != nil {
 			x.errors = append(x.errors, fmt.Sprintf("%s: ensures (at call in %s): %v", e.Where, x.topKey, err))
 			continue
 		}
 		st.assume(t)
+	}
+	for _, e := range fc.Trusted {
+		x.stdlibUsed["trusted postcondition of "+fc.Key+": "+e.Expr]++
 	}
 	if x.topC != nil && fr.fn == x.top && res != nil {
 		if bn, ok := x.topC.CallBinds[x.siteOrd(fr, v)]; ok {
@@ -330,6 +338,14 @@ func (x *Exec) modularCall(st *State, fr *Frame, v *ssa.Call, callee *ssa.Functi
 			if res != nil {
 				env.vars["ret"] = res
 				env.types["ret"] = rt
+				if tv, ok := res.(TupleV); ok {
+					if tt, ok := rt.(*types.Tuple); ok {
+						for i := range tv {
+							env.vars[fmt.Sprintf("ret%d", i)] = tv[i]
+							env.types[fmt.Sprintf("ret%d", i)] = tt.At(i).Type()
+						}
+					}
+				}
 			}
 			for _, u := range us {
 				t, err := env.evalUse(u.Expr)
